@@ -7,6 +7,11 @@ VERIF = os.path.dirname(os.path.dirname(os.path.abspath(__file__)))
 KNOWN = os.path.join(VERIF, "known_findings.json")
 
 
+def evidence_dir():
+    """/verif/evidence for runs against /repo; a scratch directory for runs against a scratch copy (mutant testing)."""
+    return os.environ.get("IWE_VERIF_EVIDENCE_DIR") or os.path.join(VERIF, "evidence")
+
+
 class Report:
     def __init__(self, prop, tier="quick"):
         self.prop = prop
@@ -67,7 +72,7 @@ class Report:
                     known_hits.append((i, kf[i["key"]]))
                 else:
                     violations.append(i)
-        os.makedirs(os.path.join(VERIF, "evidence", "replay"), exist_ok=True)
+        os.makedirs(os.path.join(evidence_dir(), "replay"), exist_ok=True)
         lines = []
         for i, e in known_hits:
             lines.append("KNOWN-FINDING: property=%s %s -- %s" % (self.prop, i["key"], e.get("what", i["detail"])))
@@ -78,7 +83,7 @@ class Report:
                 self.notes.append("known finding no longer reproduced by the rules: %s" % k)
         replay_paths = []
         for n, v in enumerate(violations):
-            rp = os.path.join(VERIF, "evidence", "replay", "%s-%d.json" % (self.prop, n))
+            rp = os.path.join(evidence_dir(), "replay", "%s-%d.json" % (self.prop, n))
             with open(rp, "w") as fh:
                 json.dump({"property": self.prop, "rule": v["rule"], "key": v["key"], "loc": v["loc"],
                            "detail": v["detail"], "rule_text": self.rules.get(v["rule"], ""), "facts": facts_sha}, fh, indent=1)
@@ -139,7 +144,7 @@ class Report:
         }
         if extra:
             ev["coverage"].update(extra)
-        with open(os.path.join(VERIF, "evidence", "%s.json" % self.prop), "w") as fh:
+        with open(os.path.join(evidence_dir(), "%s.json" % self.prop), "w") as fh:
             json.dump(ev, fh, indent=1, ensure_ascii=False)
         return lines, len(violations)
 
